@@ -612,126 +612,62 @@ fn selector_list_is_disjunction() {
     vcover!("selector_list.one_hint_missing", ha.is_none() != hb.is_none());
 }
 
-//@H props=C01,C04 tier=quick kind=bounded cap=1800 mem=medium bound="one selector per dimension (year, month, week; weekday list empty), each list possibly empty" domain="all fields x all dates"
-#[cfg_attr(kani, kani::proof)]
-#[cfg_attr(kani, kani::unwind(4))]
-#[cfg_attr(verif_replay, test)]
-fn day_selector_is_conjunction_of_dimensions() {
-    day_selector_conjunction_body(false)
-}
-
-//@H props=C01,C04 tier=thorough kind=bounded cap=3600 mem=medium bound="one selector per dimension incl. a weekday range" domain="all fields x all dates"
-#[cfg_attr(kani, kani::proof)]
-#[cfg_attr(kani, kani::unwind(4))]
-#[cfg_attr(verif_replay, test)]
-fn day_selector_is_conjunction_of_dimensions_with_weekday() {
-    day_selector_conjunction_body(true)
-}
-
-fn day_selector_conjunction_body(with_weekday: bool) {
+fn day_selector_body<const UY: bool, const UM: bool, const UW: bool, const UWD: bool>() {
     let y = any_year_range();
     nd::assume(y.step == 1);
     let m = ds::MonthdayRange::Month { range: any_month()..=any_month(), year: None };
     let w = any_week_range();
     nd::assume(w.step == 1);
     let wd = ds::WeekDayRange::Fixed { range: any_weekday()..=any_weekday(), offset: 0, nth_from_start: [true; 5], nth_from_end: [true; 5] };
-    let (uy, um, uw, uwd) = (nd::bool(), nd::bool(), nd::bool(), with_weekday && nd::bool());
     let d = any_date();
     let c = ctx();
-    let (fy, fm, fw, fwd) = (y.filter(d, &c), m.filter(d, &c), w.filter(d, &c), wd.filter(d, &c));
-    let expect = (!uy || fy) && (!um || fm) && (!uw || fw) && (!uwd || fwd);
+    let (fy, fm, fw, fwd) = (y.filter(d, &c), m.filter(d, &c), w.filter(d, &c), !UWD || wd.filter(d, &c));
+    let (hy, hm) = (y.next_change_hint(d, &c), m.next_change_hint(d, &c));
+    let expect = (!UY || fy) && (!UM || fm) && (!UW || fw) && (!UWD || fwd);
     let sel = ds::DaySelector {
-        year: if uy { vec![y] } else { vec![] },
-        monthday: if um { vec![m] } else { vec![] },
-        week: if uw { vec![w] } else { vec![] },
-        weekday: if uwd { vec![wd] } else { vec![] },
+        year: if UY { vec![y] } else { vec![] },
+        monthday: if UM { vec![m] } else { vec![] },
+        week: if UW { vec![w] } else { vec![] },
+        weekday: if UWD { vec![wd] } else { vec![] },
     };
     vpost!("C01.day_selector.rule_applies_iff_all_its_selector_dimensions_match", sel.filter(d, &c) == expect);
-    vpost!("C01.day_selector.is_empty_iff_no_dimension_given", sel.is_empty() == (!uy && !um && !uw && !uwd));
-    vcover!("day_selector.all_dimensions_match", uy && um && uw && (uwd || !with_weekday) && expect);
-    vcover!("day_selector.only_last_dimension_fails", uy && um && uw && !expect && fy && fm && (fw == with_weekday));
-    vcover!("day_selector.empty", !uy && !um && !uw && !uwd);
-}
-
-//@H props=C02,C08,C04 tier=quick kind=bounded cap=1800 mem=medium bound="a year range (step 1) and a year-less month range" domain="all fields x all dates"
-#[cfg_attr(kani, kani::proof)]
-#[cfg_attr(kani, kani::unwind(6))]
-#[cfg_attr(verif_replay, test)]
-fn day_selector_hint_is_earliest_dimension_hint() {
-    let y = any_year_range();
-    nd::assume(y.step == 1);
-    let m = ds::MonthdayRange::Month { range: any_month()..=any_month(), year: None };
-    let (uy, um) = (nd::bool(), nd::bool());
-    let d = any_date();
-    let c = ctx();
-    let hy = if uy { y.next_change_hint(d, &c) } else { Some(date_end()) };
-    let hm = if um { m.next_change_hint(d, &c) } else { Some(date_end()) };
-    let sel = ds::DaySelector {
-        year: if uy { vec![y] } else { vec![] },
-        monthday: if um { vec![m] } else { vec![] },
-        week: vec![],
-        weekday: vec![],
-    };
-    let expect = match (hy, hm) {
-        (Some(a), Some(b)) => Some(if a < b { a } else { b }),
-        _ => None,
-    };
-    vpost!("C02.day_selector.hint_is_the_earliest_dimension_hint_none_if_any_is_none", sel.next_change_hint(d, &c) == expect);
-    vpost!("C02.day_selector.without_selectors_never_changes", uy || um || sel.next_change_hint(d, &c) == Some(date_end()));
-    vcover!("day_selector_hint.month_first", uy && um && matches!((hy, hm), (Some(a), Some(b)) if b < a));
-    vcover!("day_selector_hint.none", uy && expect.is_none());
-}
-
-// ---- dated ranges: the pairing logic over abstract bound lists (layer L2 of DESIGN.md §4 C01) -----------------------
-//
-// `is_open_from_bounds` / `next_change_from_bounds` receive the start dates and end dates of a dated range
-// for a window of years and pair them up.  Dates are only compared here, so every bound is a free symbolic
-// date.  Contract (C02 shape, for the pair of functions over the same bounds): the hint is after the date,
-// not beyond 10000-01-01, and membership does not change strictly between the date and the hint; the
-// `unreachable!()` arm is unreachable (C04).  What the bound lists *are* for a given selector is the glue in
-// `MonthdayRange::filter`, which is not covered (see DESIGN.md: dated ranges undecided).
-
-fn increasing<const N: usize>(xs: &[NaiveDate; N]) -> bool {
-    let mut i = 1;
-    while i < N {
-        if xs[i - 1] >= xs[i] {
-            return false;
-        }
-        i += 1;
+    vpost!("C01.day_selector.is_empty_iff_no_dimension_given", sel.is_empty() == (!UY && !UM && !UW && !UWD));
+    if !UW && !UWD {
+        let hy = if UY { hy } else { Some(date_end()) };
+        let hm = if UM { hm } else { Some(date_end()) };
+        let expect_hint = match (hy, hm) {
+            (Some(a), Some(b)) => Some(if a < b { a } else { b }),
+            _ => None,
+        };
+        vpost!("C02.day_selector.hint_is_the_earliest_dimension_hint_none_if_any_is_none", sel.next_change_hint(d, &c) == expect_hint);
     }
-    true
+    vcover!("day_selector.matches", expect);
+    vcover!("day_selector.one_dimension_fails", !(UY && UM) || (!expect && (fy != fm)));
+    core::mem::forget(sel);
 }
 
-fn bounds_body<const NS: usize, const NE: usize>() {
-    let starts: [NaiveDate; NS] = core::array::from_fn(|_| any_date());
-    let ends: [NaiveDate; NE] = core::array::from_fn(|_| any_date());
-    nd::assume(increasing(&starts) && increasing(&ends));
-    let d = any_date();
-    let between = any_date();
-    let h = next_change_from_bounds(d, starts, ends);
-    let open_d = is_open_from_bounds(d, starts, ends);
-    let open_between = is_open_from_bounds(between, starts, ends);
-    vpost!("C02.dated_range_bounds.hint_is_after_the_date_and_within_range", h > d && h <= date_end());
-    vpost!("C02.dated_range_bounds.membership_constant_until_the_hint", !(d < between && between < h && open_between != open_d));
-    vcover!("bounds.open", open_d);
-    vcover!("bounds.closed_then_opens", !open_d && h < date_end());
-    vcover!("bounds.stale_ends_before_a_start", NS < 1 || NE < 2 || ends[1] < starts[0]);
-}
-
-//@H props=C02,C08,C04 tier=quick kind=bounded cap=1800 mem=medium bound="1 start bound, 2 end bounds" domain="all dates 1900..9999 for every bound, date and intermediate date"
+//@H props=C01,C02,C08,C04 tier=thorough kind=bounded cap=3000 mem=medium bound="day selector with one year range (step 1) and one year-less month range" domain="all fields x all dates"
 #[cfg_attr(kani, kani::proof)]
-#[cfg_attr(kani, kani::unwind(5))]
+#[cfg_attr(kani, kani::unwind(4))]
 #[cfg_attr(verif_replay, test)]
-fn dated_range_bounds_1_2() {
-    bounds_body::<1, 2>()
+fn day_selector_year_and_month() {
+    day_selector_body::<true, true, false, false>()
 }
 
-//@H props=C02,C08,C04 tier=thorough kind=bounded cap=3600 mem=medium bound="2 start bounds, 2 end bounds" domain="all dates 1900..9999 for every bound, date and intermediate date"
+//@H props=C01,C04 tier=thorough kind=bounded cap=3000 mem=medium bound="day selector with one selector in each of the four dimensions" domain="all fields x all dates"
 #[cfg_attr(kani, kani::proof)]
-#[cfg_attr(kani, kani::unwind(6))]
+#[cfg_attr(kani, kani::unwind(4))]
 #[cfg_attr(verif_replay, test)]
-fn dated_range_bounds_2_2() {
-    bounds_body::<2, 2>()
+fn day_selector_all_four_dimensions() {
+    day_selector_body::<true, true, true, true>()
+}
+
+//@H props=C01,C02,C04 tier=quick kind=bounded cap=900 mem=medium bound="the empty day selector" domain="all dates"
+#[cfg_attr(kani, kani::proof)]
+#[cfg_attr(kani, kani::unwind(4))]
+#[cfg_attr(verif_replay, test)]
+fn day_selector_empty() {
+    day_selector_body::<false, false, false, false>()
 }
 
 //@H props=ENGINE tier=quick kind=canary cap=300 expect=fail
